@@ -2,7 +2,10 @@ package c10
 
 import (
 	"fmt"
+	"strings"
 	"testing"
+
+	"github.com/DemoHn/Zn/pkg/exec"
 
 	r "github.com/DemoHn/Zn/pkg/runtime"
 	"pgregory.net/rapid"
@@ -203,4 +206,58 @@ func TestIllTypedPrograms(t *testing.T) {
 		c := progCase{Src: src, Inputs: inputs}
 		h.R.Case(t, "illtyped", src+describeInputs(inputs), c, []string{"ill-typed-program"}, true, checkProgram(c))
 	})
+}
+
+// input-variable text: type-blind expressions through ExecVarInputText (the playground's path)
+func checkVarInputText(src string) []h.Failure {
+	var kind, msg, site string
+	var m r.ElementMap
+	var err error
+	h.Capture(func() {
+		kind, msg, site = h.Guard(func() { m, err = execVarInput(src) })
+	})
+	switch kind {
+	case h.KPanic:
+		return []h.Failure{{Sig: "varinput/go-panic@" + site, Msg: fmt.Sprintf("input-variable text %q: %s", src, msg)}}
+	case h.KBudget:
+		h.R.BudgetHit()
+		return nil
+	}
+	if err == nil {
+		if m == nil {
+			return []h.Failure{{Sig: "varinput/nil-map", Msg: fmt.Sprintf("input-variable text %q: (nil, nil)", src)}}
+		}
+		for k, v := range m {
+			if v == nil || isNil(v) {
+				return []h.Failure{{Sig: "varinput/nil-element", Msg: fmt.Sprintf("input-variable text %q binds %q to a nil element", src, k)}}
+			}
+			// what the playground does with the values: they are handed to Execute
+			k2, m2, s2 := h.Guard(func() { _ = v.String() })
+			if k2 != "" {
+				return []h.Failure{{Sig: "varinput/value-unusable@" + s2, Msg: fmt.Sprintf("input-variable text %q: %s", src, m2)}}
+			}
+		}
+	}
+	return nil
+}
+
+func TestVarInputExpressions(t *testing.T) {
+	m := extractMembers()
+	getters, methods := safeNames(m.Getters), safeNames(m.Methods)
+	rapid.Check(t, func(t *rapid.T) {
+		g := &pgen{t: t, m: m, getters: getters, methods: methods, vars: []string{"甲", "乙", "数值", "异常", "显示", "真"}}
+		n := rapid.IntRange(1, 3).Draw(t, "nassign")
+		var lines []string
+		for i := 0; i < n; i++ {
+			lines = append(lines, argNames[i]+" = "+zn.RenderExpr(g.expr(3)))
+		}
+		src := strings.Join(lines, rapid.SampledFrom([]string{"\n", "；", "\r\n"}).Draw(t, "sep"))
+		h.R.Case(t, "varinput", src, progCase{Src: src}, []string{"varinput-expression"}, true, checkVarInputText(src))
+	})
+}
+
+func execVarInput(src string) (r.ElementMap, error) {
+	exec.VerifTicks, exec.VerifTickBudget, exec.VerifMaxDepth, exec.VerifDepth = 0, 50000, 1000, 0
+	defer func() { exec.VerifTickBudget, exec.VerifMaxDepth = 0, 0 }()
+	return exec.ExecVarInputText(src)
 }
